@@ -230,12 +230,14 @@ where
     // We accumulate all validity checks into single branches at the end in order to
     // keep the loop itself branchless.
     let mut laps_or_zeros = 0usize;
+    let mut num_symbols = 0usize;
     let mut accum = Probability::zero();
 
     for probability in probabilities {
         let old_accum = accum;
         accum = accum.wrapping_add(probability.borrow());
         laps_or_zeros += (accum <= old_accum) as usize;
+        num_symbols += 1;
         let symbol = symbols.next().ok_or(())?;
         operation(symbol, old_accum, *probability.borrow())?;
     }
@@ -243,13 +245,23 @@ where
     let total = wrapping_pow2::<Probability>(PRECISION);
 
     if infer_last_probability {
-        if accum >= total || laps_or_zeros != 0 {
+        // We need at least one explicitly provided probability since we don't support
+        // degenerate distributions. If `PRECISION == Probability::BITS` then `total` wraps
+        // to zero, and `accum < 1 << PRECISION` is implied by `laps_or_zeros == 0`.
+        if (PRECISION != Probability::BITS && accum >= total)
+            || laps_or_zeros != 0
+            || num_symbols == 0
+        {
             return Err(());
         }
         let symbol = symbols.next().ok_or(())?;
         let probability = total.wrapping_sub(&accum);
         operation(symbol, accum, probability)?;
-    } else if accum != total || laps_or_zeros != (PRECISION == Probability::BITS) as usize {
+    } else if accum != total
+        || laps_or_zeros != (PRECISION == Probability::BITS) as usize
+        || num_symbols < 2
+    {
+        // (The check `num_symbols < 2` rejects degenerate distributions.)
         return Err(());
     }
 
